@@ -97,9 +97,15 @@ fn set_limits() {
             rlim_max: 0,
         };
         libc::setrlimit(libc::RLIMIT_CORE, &z);
-        // keep freed memory in the process: giving pages back after every case and faulting them in again
-        // for the next one costs more than the cases themselves
-        libc::mallopt(libc::M_ARENA_MAX, 1);
+    }
+    tune_malloc(1);
+}
+
+/// Keeps freed memory in the process: giving pages back after every case and faulting them in again for the
+/// next one costs more than the cases themselves (measured: 3x on import-heavy cases).
+pub fn tune_malloc(arenas: i32) {
+    unsafe {
+        libc::mallopt(libc::M_ARENA_MAX, arenas);
         libc::mallopt(libc::M_TRIM_THRESHOLD, 1 << 30);
         libc::mallopt(libc::M_TOP_PAD, 64 << 20);
         libc::mallopt(libc::M_MMAP_THRESHOLD, 32 << 20);
@@ -495,6 +501,15 @@ fn run_batch(prop: &str, tier: Tier, from: usize, to: usize, opts: &Opts, agg: &
     }
 }
 
+/// A case may carry `"hint"`: a short class of the input (e.g. which construct a tower nests) that narrows the
+/// signature of an abort or hang, which otherwise only names the entry point.
+fn with_hint(sig: String, case: &Value) -> String {
+    match case["hint"].as_str() {
+        Some(h) if !h.is_empty() => format!("{} input={}", sig, h),
+        _ => sig,
+    }
+}
+
 /// Result of running one case alone in a diagnose worker.
 pub struct Diagnosis {
     pub ds: Vec<Disagreement>,
@@ -655,7 +670,7 @@ pub fn run_isolated(run: &mut Run, prop: &str, n_cases: usize, case_of: &(dyn Fn
                                 }
                                 match dg.lost {
                                     Some((sig, detail)) => agg.ds.push(Disagreement {
-                                        sig,
+                                        sig: with_hint(sig, &case),
                                         case: case.clone(),
                                         detail,
                                     }),
@@ -671,7 +686,7 @@ pub fn run_isolated(run: &mut Run, prop: &str, n_cases: usize, case_of: &(dyn Fn
                                                 let mut c = case.clone();
                                                 c["context"] = json!({"tier": tier_name(tier), "from": gstart, "idx": idx});
                                                 agg.ds.push(Disagreement {
-                                                    sig,
+                                                    sig: with_hint(sig, &case),
                                                     case: c,
                                                     detail: format!(
                                                         "{}\n(reproduced only after the {} preceding cases of its worker thread: which code the input meets first depends on hash-map order; alone the case ends normally)",
@@ -747,7 +762,7 @@ pub fn replay_isolated(prop: &str, case: &Value, watchdog_s: f64) -> Vec<Disagre
     let mut ds = dg.ds;
     if let Some((sig, detail)) = dg.lost {
         ds.push(Disagreement {
-            sig,
+            sig: with_hint(sig, case),
             case: case.clone(),
             detail,
         });
